@@ -318,7 +318,9 @@ func (ap *AP) T(axes ...int) (retVal AP, a []int, err error) {
 			axes[i] = dims - 1 - i
 		}
 	}
-	a = axes
+	// the transpose keeps (and eventually recycles) the axes, so never hold on to the caller's slice
+	a = BorrowInts(len(axes))
+	copy(a, axes)
 
 	if ap.shape.IsScalarEquiv() {
 		return ap.Clone(), a, noopError{}
